@@ -14,13 +14,15 @@ import (
 func init() {
 	register(&Prop{
 		ID:          "C14",
-		Explanation: "Decides that identity-provider failures cannot yield a session by code shape: every saving path of the callback has redeemCode's error nil, the saved session is redeemCode's and enrichSessionState(session) returned nil; redeemCode returns a session only when provider.Redeem's error was nil; after a stale session's refresh attempt the result is validateSession's verdict (not-expired and provider validation), shared with C12.R4; at every call site of a Provider method (Redeem, EnrichSession, RefreshSession, ValidateSession, Authorize, CreateSessionFromToken, GetEmailAddress) the error result is returned/converted to a non-nil error or examined by a branch, and the boolean/session result is used; OIDC createSession tolerates a failed ID-token verification only for refresh with ErrMissingIDToken; and in all provider, claim-extraction and request packages reachable from ServeHTTP every unchecked type assertion, explicit panic, compiler-unproven index/slice and decoder-filled pointer used without a nil test is guarded or reviewed (the panic-source enumeration of C19 restricted to code that handles identity-provider data). Added during the build: createSession failure clauses (R5); provider code never finds a module callee's error non-nil and then returns success, reviewed fallbacks listed (R6); validateToken answers true only for a non-empty token, an error-free request and status 200 (R7); result-before-error-check dereferences in provider code (under R4). Round 3: bearer sessions only with a typed email_verified absent or true (R8); GitHub's isCollaborator pairs a nil error only with a true verdict (R9). Round 4: the HTTP helper all provider calls go through hands back a Result without error only when building, sending and completely reading the exchange all returned no error (R10). Round 5: every local structure an identity-provider response is decoded into is still zero at the decode call (R11). Round 7: request handling keeps no state of its own between requests — no store, map update, in-place builtin, atomic/sync.Map write or pointer-receiver library call (singleflight, caches) reached from ServeHTTP targets a package-level variable, an object built at start-up, or a constructor variable captured by the handler it returned, declared in the packages implementing this property (RS; a class-wide who-may-write rule with zero instances today: a correct memoisation would be reported until reviewed). P11 (nilable single-value map lookups never compared with nil) joins the panic-source scan. Round 8: provider code consults Result.StatusCode() only where Result.Error() was found nil (R12).",
+		Explanation: "Decides that identity-provider failures cannot yield a session by code shape: every saving path of the callback has redeemCode's error nil, the saved session is redeemCode's and enrichSessionState(session) returned nil; redeemCode returns a session only when provider.Redeem's error was nil; after a stale session's refresh attempt the result is validateSession's verdict (not-expired and provider validation), shared with C12.R4; at every call site of a Provider method (Redeem, EnrichSession, RefreshSession, ValidateSession, Authorize, CreateSessionFromToken, GetEmailAddress) the error result is returned/converted to a non-nil error or examined by a branch, and the boolean/session result is used; OIDC createSession tolerates a failed ID-token verification only for refresh with ErrMissingIDToken; and in all provider, claim-extraction and request packages reachable from ServeHTTP every unchecked type assertion, explicit panic, compiler-unproven index/slice and decoder-filled pointer used without a nil test is guarded or reviewed (the panic-source enumeration of C19 restricted to code that handles identity-provider data). Added during the build: createSession failure clauses (R5); provider code never finds a module callee's error non-nil and then returns success, reviewed fallbacks listed (R6); validateToken answers true only for a non-empty token, an error-free request and status 200 (R7); result-before-error-check dereferences in provider code (under R4). Round 3: bearer sessions only with a typed email_verified absent or true (R8); GitHub's isCollaborator pairs a nil error only with a true verdict (R9). Round 4: the HTTP helper all provider calls go through hands back a Result without error only when building, sending and completely reading the exchange all returned no error (R10). Round 5: every local structure an identity-provider response is decoded into is still zero at the decode call (R11). Round 7: request handling keeps no state of its own between requests — no store, map update, in-place builtin, atomic/sync.Map write or pointer-receiver library call (singleflight, caches) reached from ServeHTTP targets a package-level variable, an object built at start-up, or a constructor variable captured by the handler it returned, declared in the packages implementing this property (RS; a class-wide who-may-write rule with zero instances today: a correct memoisation would be reported until reviewed). P11 (nilable single-value map lookups never compared with nil) joins the panic-source scan. Round 8: provider code consults Result.StatusCode() only where Result.Error() was found nil (R12). Round 8 (class-wide, P12): in the packages implementing this property every named error result that is used at all is examined — compared with nil, returned, stored or handed to a non-formatting function — unless the code validates the value result instead (RE; zero instances today).",
 		NotDecided:  "time-outs, oversized bodies and other resource behaviour; panics inside third-party decoders (go-oidc, jose, simplejson) on hostile bytes.",
 		Run:         runC14,
 	})
 }
 
 func runC14(c *Ctx) {
+	c.R.Rule("RE-errors-examined", "in the packages implementing this property every named error result that is used at all is examined, or the value is validated instead (P12, class-wide, round 8)", 1)
+	runErrorsExamined(c, "RE-errors-examined", "main", "providers", "pkg/providers", "pkg/requests")
 	c.R.Rule("R12-status-only-after-error", "provider code consults Result.StatusCode() only on paths where Result.Error() was found nil: with no response at all the status is 0 (round 8)", 2)
 	runStatusOnlyAfterError(c, "R12-status-only-after-error")
 	c.R.Rule("RS-no-request-time-state", "request handling writes no state that outlives the request (package-level variables, objects built at start-up, constructor variables captured by handlers) declared in the packages implementing this property", 1)
